@@ -104,6 +104,17 @@ func DocAuthentic(body []byte, hdrVals []string, member string, pool []*x509.Cer
 	if !SignedByKeyOf(signer, root) {
 		return DocAuth{Why: "signer not issued by the presented root"}
 	}
+	if n := len(signer.ExtKeyUsage) + len(signer.UnknownExtKeyUsage); n != 0 {
+		open := false
+		for _, u := range signer.ExtKeyUsage {
+			if u == x509.ExtKeyUsageAny || u == x509.ExtKeyUsageServerAuth {
+				open = true
+			}
+		}
+		if !open {
+			return DocAuth{Why: "signer certificate is restricted by its issuer to another purpose (extended key usage)"}
+		}
+	}
 	trusted := false
 	for _, r := range pool {
 		if SignedByKeyOf(signer, r) {
